@@ -821,7 +821,7 @@ func c33Variants(l c33Layout, caps c33Caps) []c33Variant {
 			c := base(store)
 			c.LFSMode, c.LFSConc, c.LFSChecksum = "resolve", 2, true
 			c33MarkLFS(c.Segs, func(s, r int) bool { return (s+r)%2 == 0 })
-			out = append(out, c33Variant{c, false, store == "persistent"})
+			out = append(out, c33Variant{c, store == "default", store == "persistent"})
 		}
 		c := base("persistent")
 		c.LFSMode, c.LFSConc = "hybrid", 1
